@@ -88,7 +88,8 @@ def _value_checks(sv, bs4, obj, soup, errs, tag):
             except Exception as e:
                 errs.append((tag, 'hash(%s) raised' % type(m).__name__))
     base = [id(t) for t in obj.select(soup)]
-    for name, dup in (('pickle', lambda o: pickle.loads(pickle.dumps(o))), ('copy', copy.copy), ('deepcopy', copy.deepcopy)):
+    dups = [('pickle protocol %d' % pr, lambda o, pr=pr: pickle.loads(pickle.dumps(o, protocol=pr))) for pr in range(0, pickle.HIGHEST_PROTOCOL + 1)]
+    for name, dup in dups + [('copy', copy.copy), ('deepcopy', copy.deepcopy)]:
         try:
             c = dup(obj)
         except Exception as e:
@@ -197,6 +198,37 @@ def _caller_part(chk):
             chk.nontrivial('caller:' + css)
             for what in errs:
                 chk.violation('caller|%s|%s' % (css, what), '%s (pattern %r)' % (what, css), {'cfg': 'caller-values', 'group': what[:70], 'selector': css})
+    # argument TYPE is not part of the value: a map given as a dict, as an OrderedDict, as a list / iterator of pairs (a repeated key: the last
+    # one wins, as in dict(pairs)), denotes the same mapping
+    import collections
+    sv.purge()
+    pairs_ns = [('a', 'urn:9'), ('b', 'urn:2'), ('a', 'urn:1')]
+    pairs_cu = [(':--x', 'i'), (':--y', 'b, i'), (':--x', 'p.q')]
+    ref = sv.compile('a|p:--x, :--y', dict(pairs_ns), custom=dict(pairs_cu))
+    ref_sel = [pos[id(t)] for t in ref.select(soup)]
+    variants = [('OrderedDict', collections.OrderedDict(pairs_ns), collections.OrderedDict(pairs_cu)),
+                ('list of pairs with a repeated key', list(pairs_ns), list(pairs_cu)),
+                ('reversed-insertion dict', dict(reversed(list(dict(pairs_ns).items()))), dict(reversed(list(dict(pairs_cu).items()))))]
+    for vname, vns, vcu in variants:
+        chk.count(1)
+        try:
+            o = sv.compile('a|p:--x, :--y', vns, custom=vcu)
+        except Exception as ex:
+            if vname.startswith('list'):
+                continue          # (a list of pairs is not promised by the signature; if it is accepted it must mean dict(pairs))
+            chk.violation('argtype|%s|raise' % vname, 'compile with maps given as %s raised %s' % (vname, type(ex).__name__), {'cfg': 'caller-values', 'group': 'argument type'})
+            continue
+        bad = []
+        if not (o == ref) or o != ref:
+            bad.append('is not equal to the selector compiled from the equivalent dict')
+        elif hash(o) != hash(ref):
+            bad.append('is equal to the selector compiled from the equivalent dict but hashes differently')
+        if [pos[id(t)] for t in o.select(soup)] != ref_sel:
+            bad.append('selects different elements')
+        if dict(o.namespaces) != dict(pairs_ns) or dict(o.custom) != dict(pairs_cu):
+            bad.append('stores a different mapping than dict(pairs)')
+        for b in bad:
+            chk.violation('argtype|%s|%s' % (vname, b), 'a selector compiled with maps given as %s %s' % (vname, b), {'cfg': 'caller-values', 'group': 'argument type: ' + b[:40]})
     # the pattern is part of the value: kept as given, and different texts are different values
     pairs = [('[id="\x00pre"]', '[id="\ufffdpre"]'), ('p\x00', 'p\ufffd'), (' p', 'p'), ('p ', 'p'), ('P', 'p'), ('p/**/', 'p'), (r'\70', 'p')]
     sv.purge()
